@@ -8,7 +8,7 @@ from vlib import Infra
 ALL_OPS = '{"label", "delete", "diff", "download", "keys", "update"}'
 
 
-def gen_meta(ctx, name, num, maxlen, crash, repoops, squash, ops, bulks="{0}", maxbundles=5, seed=None):
+def gen_meta(ctx, name, num, maxlen, crash, repoops, squash, ops, bulks="{0}", maxbundles=5, seed=None, labelw=2, script=None):
     beh = os.path.join(ctx.work, name)
     d = {
         '"meta_beh.ndjson"': '"%s"' % beh,
@@ -19,9 +19,14 @@ def gen_meta(ctx, name, num, maxlen, crash, repoops, squash, ops, bulks="{0}", m
         "WithSquash = TRUE": "WithSquash = %s" % ("TRUE" if squash else "FALSE"),
         "Ops = " + ALL_OPS: "Ops = " + ops,
         "Bulks = {0}": "Bulks = " + bulks,
+        "LabelW = 2": "LabelW = %d" % labelw,
     }
-    g = vlib.run_tlc(ctx, "Gen_Meta.tla", "Gen_Meta.cfg", workers=1, timeout=1800, defines=d,
-                     simulate="num=%d" % num, depth=maxlen + 3, seed=seed)
+    if script:
+        d['Script = "none"'] = 'Script = "%s"' % script
+        g = vlib.run_tlc(ctx, "Gen_Meta.tla", "Gen_Meta.cfg", workers=1, timeout=1800, defines=d)   # BFS: exhaustive
+    else:
+        g = vlib.run_tlc(ctx, "Gen_Meta.tla", "Gen_Meta.cfg", workers=1, timeout=1800, defines=d,
+                         simulate="num=%d" % num, depth=maxlen + 3, seed=seed)
     if g["timed_out"] or not os.path.exists(beh):
         raise Infra("Gen_Meta failed:\n" + g["out"][-2000:])
     if g["violated"]:
